@@ -166,4 +166,105 @@ theorem shared_overlap : ∃ st, run [] [Ev.acq 1 0 .shared, Ev.acq 2 0 .shared,
 theorem excl_blocks (m : LMode) : run [] [Ev.acq 1 0 .excl, Ev.acq 2 0 m] = none := by
   cases m <;> decide
 
+/-! ### The release/acquire pair between two ordered accesses -/
+
+/-- a step adds a holding only by the matching acquire -/
+theorem step_mem_sub {st st' : LState} {e : Ev} {x : Nat × Nat × LMode} (hs : step st e = some st')
+    (hx : x ∈ st') : x ∈ st ∨ e = Ev.acq x.1 x.2.1 x.2.2 := by
+  cases e with
+  | acq t l m =>
+    simp only [step] at hs
+    split at hs
+    · cases hs
+      rcases List.mem_cons.mp hx with hx | hx
+      · right; rw [hx]
+      · exact Or.inl hx
+    · cases hs
+  | rel t l =>
+    simp only [step] at hs
+    cases hs
+    exact Or.inl (List.mem_filter.mp hx).1
+  | acc t id =>
+    simp only [step] at hs
+    cases hs
+    exact Or.inl hx
+
+/-- a holding that is absent before and present after an execution was acquired in it -/
+theorem run_gains {es : List Ev} : ∀ {st st' : LState} {t l : Nat} {m : LMode}, (t, l, m) ∉ st →
+    run st es = some st' → (t, l, m) ∈ st' → ∃ b c, es = b ++ Ev.acq t l m :: c := by
+  induction es with
+  | nil => intro st st' t l m hn h hin; simp only [run] at h; cases h; exact absurd hin hn
+  | cons e es ih =>
+    intro st st' t l m hn h hin
+    simp only [run] at h
+    cases hs : step st e with
+    | none => simp [hs] at h
+    | some s1 =>
+      simp only [hs, Option.bind_some] at h
+      by_cases hm : (t, l, m) ∈ s1
+      · rcases step_mem_sub hs hm with h' | h'
+        · exact absurd h' hn
+        · exact ⟨[], es, by simp [h']⟩
+      · obtain ⟨b, c, hbc⟩ := ih hm h hin
+        exact ⟨e :: b, c, by simp [hbc]⟩
+
+theorem not_mem_of_compat {st : LState} {t₁ t₂ l : Nat} {m₁ m₂ : LMode} (hc : Compat st)
+    (h₁ : (t₁, l, m₁) ∈ st) (hne : t₁ ≠ t₂) (hx : m₁ = LMode.excl ∨ m₂ = LMode.excl) :
+    (t₂, l, m₂) ∉ st := by
+  intro h₂
+  have := hc t₁ t₂ l m₁ m₂ h₁ h₂ hne
+  rcases hx with hx | hx
+  · rw [hx] at this; exact absurd this.1 (by decide)
+  · rw [hx] at this; exact absurd this.2 (by decide)
+
+theorem rel_then_acq {mid : List Ev} : ∀ {st₁ st₂ : LState} {t₁ t₂ l : Nat} {m₁ m₂ : LMode},
+    Compat st₁ → run st₁ mid = some st₂ → (t₁, l, m₁) ∈ st₁ → (t₂, l, m₂) ∈ st₂ → t₁ ≠ t₂ →
+    (m₁ = LMode.excl ∨ m₂ = LMode.excl) →
+    ∃ a b c, mid = a ++ Ev.rel t₁ l :: (b ++ Ev.acq t₂ l m₂ :: c) := by
+  induction mid with
+  | nil =>
+    intro st₁ st₂ t₁ t₂ l m₁ m₂ hc h h₁ h₂ hne hx
+    simp only [run] at h; cases h
+    exact absurd h₂ (not_mem_of_compat hc h₁ hne hx)
+  | cons e es ih =>
+    intro st₁ st₂ t₁ t₂ l m₁ m₂ hc h h₁ h₂ hne hx
+    simp only [run] at h
+    cases hs : step st₁ e with
+    | none => simp [hs] at h
+    | some s1 =>
+      simp only [hs, Option.bind_some] at h
+      by_cases he : e = Ev.rel t₁ l
+      · have hn1 : (t₂, l, m₂) ∉ s1 := by
+          intro hin
+          rcases step_mem_sub hs hin with h' | h'
+          · exact not_mem_of_compat hc h₁ hne hx h'
+          · rw [he] at h'; cases h'
+        obtain ⟨b, c, hbc⟩ := run_gains hn1 h h₂
+        exact ⟨[], b, c, by simp [he, hbc]⟩
+      · obtain ⟨a, b, c, habc⟩ := ih (step_compat hc hs) h (step_keeps h₁ hs he) h₂ hne hx
+        exact ⟨e :: a, b, c, by simp [habc]⟩
+
+/-- **Mutual exclusion ⇒ a release/acquire pair in between (the happens-before edge).**  Stronger
+form of `release_between`: in every execution, between the point where `t₁` holds `l` (its access)
+and the later point where `t₂ ≠ t₁` holds `l` (its access), one side exclusively, the execution
+contains `t₁`'s release of `l` FOLLOWED BY `t₂`'s acquisition of `l` — exactly the pair of
+synchronisation operations the Go memory model orders (`Unlock` before the later `Lock` returns), so
+that access₁ →po release →sw acquire →po access₂. -/
+theorem hb_between {pre mid : List Ev} {st₁ st₂ : LState} {t₁ t₂ l : Nat} {m₁ m₂ : LMode}
+    (hpre : run [] pre = some st₁) (hmid : run st₁ mid = some st₂)
+    (h₁ : (t₁, l, m₁) ∈ st₁) (h₂ : (t₂, l, m₂) ∈ st₂) (hne : t₁ ≠ t₂)
+    (hx : m₁ = LMode.excl ∨ m₂ = LMode.excl) :
+    ∃ a b c, mid = a ++ Ev.rel t₁ l :: (b ++ Ev.acq t₂ l m₂ :: c) :=
+  rel_then_acq (run_compat compat_nil hpre) hmid h₁ h₂ hne hx
+
+theorem commonLock_hb_between {a b : Access} (hcl : commonLock a b)
+    {pre mid : List Ev} {st₁ st₂ : LState} {t₁ t₂ : Nat}
+    (hpre : run [] pre = some st₁) (hmid : run st₁ mid = some st₂)
+    (ha : ∀ p ∈ a.held, (t₁, p.1, p.2) ∈ st₁) (hb : ∀ p ∈ b.held, (t₂, p.1, p.2) ∈ st₂)
+    (hne : t₁ ≠ t₂) :
+    ∃ l m₂ x y z, (l, m₂) ∈ b.held ∧ mid = x ++ Ev.rel t₁ l :: (y ++ Ev.acq t₂ l m₂ :: z) := by
+  obtain ⟨l, m₁, m₂, h₁, h₂, hx⟩ := hcl
+  obtain ⟨x, y, z, h⟩ := hb_between hpre hmid (ha (l, m₁) h₁) (hb (l, m₂) h₂) hne hx
+  exact ⟨l, m₂, x, y, z, h₂, h⟩
+
 end ScVerif.C11
